@@ -1240,7 +1240,7 @@ pub fn pattern_frags() -> Vec<Frag> {
         fr("(?-u:\\\\b)a", "start look-behind"), fr("^a", "start look-behind"), fr("(?m:^)a", "start look-behind"), fr("\\\\bx", "unsupported unicode word boundary"),
         fr("x\\\\b", "unsupported unicode word boundary"), fr("a(?=b)", "unsupported look-ahead group"), fr("(a)\\\\1", "unsupported back-reference"), fr("(a+)-\\\\1", "unsupported back-reference"), fr("a\\\\7", "unsupported back-reference"), fr("a\\\\0", "parse error"), fr("a\\\\8", "parse error"),
         fr(".*", "nullable"), fr("a.*", "greedy dot"), fr("(a.*)", "greedy dot"), fr("a.+", "greedy dot"), fr("a(.*b)?", "greedy dot"), fr("(a.+)+b", "greedy dot"),
-        fr("a[^\\\\n]*", "greedy dot"), fr("a(?s:.)*", "greedy dot"), fr("a(?:.*)b", "greedy dot"), fr("(?:a|b.*)c", "greedy dot"), fr("a(?:.*){2}", "greedy dot"), fr("a.{2,}", "greedy dot"), fr("[^\\\\n]{3,}b", "greedy dot"), fr("a(?s:.){2,}", "greedy dot"), fr("a(.{5,}b)?", "greedy dot"), fr("(.){1,}x", "greedy dot"), fr("//[^\\r\\n]*", "greedy dot"), fr("#(?R).+", "greedy dot"), fr("a(?R:.)*b", "greedy dot"), fr("a(?sR:.)+", "greedy dot"), fr("a[^\\n\\r]{2,}", "greedy dot"), fr("#(?:.{1,5})*", "greedy dot"), fr("a(?:(.)?)+b", "greedy dot"), fr("a(?:.{2}){3,}", "greedy dot"), fr("a((.){1,2})*", "greedy dot"), fr("a(?:.{1,5}?)*b", "greedy dot"), f("a(?:.{1,5})*?b"), f("a(?:.{1,5}){0,9}"), f("a.{2,}?b"), f("a.{2,9}"),
+        fr("a[^\\\\n]*", "greedy dot"), fr("a(?s:.)*", "greedy dot"), fr("a(?:.*)b", "greedy dot"), fr("(?:a|b.*)c", "greedy dot"), fr("a(?:.*){2}", "greedy dot"), fr("a.{2,}", "greedy dot"), fr("[^\\\\n]{3,}b", "greedy dot"), fr("a(?s:.){2,}", "greedy dot"), fr("a(.{5,}b)?", "greedy dot"), fr("(.){1,}x", "greedy dot"), fr("//[^\\r\\n]*", "greedy dot"), fr("#(?R).+", "greedy dot"), fr("a(?R:.)*b", "greedy dot"), fr("a(?sR:.)+", "greedy dot"), fr("a[^\\n\\r]{2,}", "greedy dot"), fr("x((.))+", "greedy dot"), fr("#(?P<rest>(.))*", "greedy dot"), fr("z(?P<a>(?P<b>[^\\n]))*", "greedy dot"), fr("q(((.)))*", "greedy dot"), fr("q(?:((?:(.))))+r", "greedy dot"), fr("#(?:.{1,5})*", "greedy dot"), fr("a(?:(.)?)+b", "greedy dot"), fr("a(?:.{2}){3,}", "greedy dot"), fr("a((.){1,2})*", "greedy dot"), fr("a(?:.{1,5}?)*b", "greedy dot"), f("a(?:.{1,5})*?b"), f("a(?:.{1,5}){0,9}"), f("a.{2,}?b"), f("a.{2,9}"),
         f("a.*?b"), f("a.+?b"), f("a.{0,5}"), fr("(?&undef)", "undefined subpattern"), fr("a(?&undef)b", "undefined subpattern"), fr("[", "parse error"),
         fr("\\\\p{Nope}", "parse error"), fr("a{2,1}", "parse error"), fr("(?i", "parse error"), fr("\\\\q", "parse error"), fr("(?P<n>a)(?P<n>b)", "parse error"),
         f("(?x) a b # c"), f("[a&&b]x"), f("\\\\x{110000}"), f("a{1000}"),
